@@ -455,7 +455,29 @@ def rule_8(ctx):
         ctx.expect(got == alone_cache[(name, args)], V.registered(ctx, name).node, f'call {i + 1} of a sequence in one process: {name}{args!r}',
                    f'{name}{args!r} gives {got!r} as call {i + 1} of a sequence of date calls in one process ({", ".join(f"{n_}{a_!r}" for n_, a_ in seq[max(0, i - 4):i])} '
                    f'before it) and {alone_cache[(name, args)]!r} on its own: what one call computed is no business of the next')
-    ctx.floor(380, 'calendar rows')
+    # a workbook saved with the 1904 date system was loaded earlier in the process: models built from serial numbers of the
+    # 1900 system - this one, one compiled before that load, one loaded afterwards - still read them in the 1900 system
+    from . import workbook as W
+    from . import scenarios as S
+    cal = {'A1': 43831, 'A2': 61, 'A3': 59, 'B1': '=YEAR(A1)', 'B2': '=MONTH(A1)&"-"&DAY(A1)', 'B3': '=WEEKDAY(A1,2)', 'B4': '=YEAR(A2)&"-"&MONTH(A2)&"-"&DAY(A2)',
+           'B5': '=DAY(A3)', 'B6': '=EOMONTH(A1,0)', 'B7': '=EDATE(A1,1)', 'B8': '=ISOWEEKNUM(A1)', 'B9': '=DATE(2020,1,1)-A1'}
+    cwant = {'B1': 2020, 'B2': '1-1', 'B3': 3, 'B4': '1900-3-1', 'B5': 28, 'B6': 43861, 'B7': 43862, 'B8': 1, 'B9': 0}
+    before = W.Workbook(ctx, cal, models=models)
+    before.value('Sheet1!B1')
+    mac = W.Workbook(ctx, sheets={'Log': {'A1': 42369, 'B1': '=A1+1'}}, date1904=True, world=before.world, models=models)
+    mac.value('Log!B1')
+    for bname, make in (('compiled before that load', lambda: before), ('built after it', lambda: W.Workbook(ctx, cal, world=before.world, models=models)),
+                        ('loaded from a 1900-system file after it', lambda: W.Workbook(ctx, sheets={'Sheet1': cal}, world=before.world, models=models))):
+        book = make()
+        for a, w in cwant.items():
+            got = book.value('Sheet1!' + a)
+            if isinstance(got, tuple) and len(got) == 2 and got[0] == 'DateTime' and isinstance(got[1], dt.datetime):
+                got = ('Number', serial(got[1].date()))
+            n += 1
+            ctx.expect(S.same(got, ('Number', w) if not isinstance(w, str) else ('Text', w)), f.node, f'{cal[a]} in a model {bname} of a 1904-system workbook',
+                       f'{a} = {cal[a]} (A1 = 43831, A2 = 61, A3 = 59) evaluates to {got!r} in a model {bname} of a workbook saved with the 1904 date system; '
+                       f'expected {w!r}: serial 1 is 1900-01-01 for every model that was not read from such a file')
+    ctx.floor(400, 'calendar rows')
 
 
 RULES = [
